@@ -31,11 +31,12 @@ type histCfg struct {
 	reload   bool // step kind "reload": rebuild the replica from its entries with NewLog (what the loaders do)
 	deny     bool // replica 0 refuses entries signed by the last writer
 	pcN      int  // number of pointer-count alternatives tried at each append (1 = default only)
+	emptyAt  int  // index of the append that carries an empty payload (-1 = none)
 }
 
 func histParams() histCfg {
 	return histCfg{R: vx.Param("R", 2), K: vx.Param("K", 3), W: vx.Param("W", 2), sort: vx.Param("SORT", sortHash),
-		symClock: vx.Param("SYMCLOCK", 0) == 1, reload: vx.Param("RELOAD", 0) == 1, deny: vx.Param("DENY", 0) == 1, pcN: vx.Param("PCN", 1)}
+		symClock: vx.Param("SYMCLOCK", 0) == 1, reload: vx.Param("RELOAD", 0) == 1, deny: vx.Param("DENY", 0) == 1, pcN: vx.Param("PCN", 1), emptyAt: vx.Param("EMPTYAT", -1)}
 }
 
 var pcTable = []int{0, 2, 4, 3, 8, -1, 16, 1}
@@ -119,7 +120,11 @@ func (h *hist) run(pre func(h *hist), post func(h *hist)) {
 			if h.pc != 0 {
 				opts = &ipfslog.AppendOptions{PointerCount: h.pc}
 			}
-			h.res, h.err = h.logs[h.dst].Append(ctx, []byte{'p', byte('0' + h.nAppend)}, opts)
+			payload := []byte{'p', byte('0' + h.nAppend)}
+			if h.cfg.emptyAt == h.nAppend {
+				payload = []byte{} // Append accepts an empty payload: such entries are reachable log states
+			}
+			h.res, h.err = h.logs[h.dst].Append(ctx, payload, opts)
 			h.nAppend++
 		case opJoin:
 			_, h.err = h.logs[h.dst].Join(h.logs[h.src], -1)
